@@ -111,8 +111,11 @@ def correspond(ctx):
                 def key(dim):
                     r = rng.random()
                     if r < 0.25: return rng.randrange(-dim, dim)
-                    if r < 0.5:
+                    if r < 0.4:
                         lo = rng.randrange(0, dim); return slice(lo, rng.randrange(lo, dim + 1), rng.choice([1, 1, 2]))
+                    if r < 0.55:      # every slice form: open ends, negative ends, negative steps (whole axis reversed, partial, strided)
+                        end = lambda: rng.choice([None, None, rng.randrange(-dim - 1, dim + 2)])
+                        return slice(end(), end(), rng.choice([1, 2, 3, -1, -1, -2, -3, None]))
                     if r < 0.6: return slice(None)
                     return [rng.randrange(-dim, dim) for _ in range(rng.randint(1, 3))]
                 I, J = key(m), key(n)
@@ -139,6 +142,20 @@ def correspond(ctx):
                     elif ok_d is True and ok_s is True: dense_eq(S, D, 'assignment ' + what, list(seq))
                     elif (ok_d is True) != (ok_s is True) and not (kind == 'sparse' and ok_d is True):
                         ctx.violation('c16:dense-image:assignment-refusal', '%s: dense %s, sparse %s' % (what, ok_d, ok_s), {'sequence': list(seq), 'I': repr(I), 'J': repr(J)})
+                    # one-argument (linear, column-major) indexing with the same kinds of index
+                    K1 = key(m * n)
+                    try: G1d = matrix(A)[K1]; okd = True
+                    except (IndexError, TypeError, ValueError): okd = False
+                    try: G1 = A[K1]; oks = True
+                    except (IndexError, TypeError, ValueError): oks = False
+                    oracle_checks += 1
+                    if okd != oks:
+                        ctx.violation('c16:dense-image:indexing-refusal', 'A[%r] on a %dx%d matrix: dense %s, sparse %s' % (K1, m, n, 'accepts' if okd else 'refuses', 'accepts' if oks else 'refuses'),
+                                      {'sequence': list(seq), 'K': repr(K1)})
+                    elif okd:
+                        same1 = (list(matrix(G1)) == list(G1d) and G1.size == G1d.size and valid(G1)) if isinstance(G1, spmatrix) else (not isinstance(G1d, matrix) and G1 == G1d)
+                        if not same1:
+                            ctx.violation('c16:dense-image:indexing', 'A[%r] differs from the dense result' % (K1,), {'sequence': list(seq), 'K': repr(K1)})
                     G = A[I, J]; Gd = matrix(A)[I, J]
                     oracle_checks += 1
                     if isinstance(G, spmatrix):
